@@ -168,6 +168,43 @@ class Harness(object):
                     raise Violation("C19/delete-behaviour", "%s delete(subject %d): expected %s, got %s" % (name, s, want, got))
             self.model.pop(s, None)
             self.hit("deletes")
+        elif kind == "snapshot":
+            # what another process would find in the cache file right now (a second SP instance on the same identity_cache, or this one after
+            # it died without closing): a copy of the files as they are, opened by a cache of its own.  Every operation so far has returned.
+            import glob
+            import shutil as _sh
+            copies = []
+            for f in glob.glob(self.path + "*"):
+                if ".snap" in f:
+                    continue
+                t = f.replace(self.path, self.path + ".snap", 1)
+                _sh.copy2(f, t)
+                copies.append(t)
+            other = None
+            try:
+                other = self.cachemod.Cache(self.path + ".snap")
+                for s_ in range(self.nsubj):
+                    w_res, w_old = self.m_identity(s_, True)
+                    try:
+                        g_res, g_old = other.get_identity(self.nid(s_), None, True)
+                    except Exception as exc:
+                        raise Violation("C19/file-content-behind-acknowledged-operations", "a second cache on a copy of the file as it is: get_identity(subject %d) raised %r" % (s_, exc))
+                    self.hit("snapshot_identity_checks")
+                    if {k: set(v) for k, v in g_res.items()} != w_res or sorted(g_old) != w_old:
+                        raise Violation("C19/file-content-behind-acknowledged-operations",
+                                        "a second cache on a copy of the file as it is answers %r / stale %r for subject %d, every operation so far having returned: model %r / %r" % (
+                                            {k: sorted(v) for k, v in g_res.items()}, sorted(g_old), s_, {k: sorted(v) for k, v in w_res.items()}, w_old))
+            finally:
+                try:
+                    if other is not None:
+                        other._db.close()
+                except Exception:
+                    pass
+                for t in copies + glob.glob(self.path + ".snap*"):
+                    try:
+                        os.unlink(t)
+                    except OSError:
+                        pass
         elif kind == "reopen":
             try:
                 self.fil._db.close()
@@ -506,8 +543,10 @@ def _run_case(case, ctx):
                     op = ("reset", rng.randrange(case["nsubj"]), rng.choice(SOURCES))
                 elif r < 0.75:
                     op = ("delete", rng.randrange(case["nsubj"]))
-                elif r < 0.9:
+                elif r < 0.87:
                     op = ("tick", rng.choice([1, 3, 50, 150, 5000]))
+                elif r < 0.94:
+                    op = ("snapshot",)
                 else:
                     op = ("reopen",)
                 # never place an expiry exactly at "now" (unspecified)
